@@ -22,18 +22,22 @@ class Cloning:
     for k,v in self._data.items():
       if k in self.__class__.REFERENCE_FIELDS:
         data_cpy[k] = self.field_to_s(k)
+      elif isinstance(v, gfapy.FieldArray):
+        # (before the J case: a repeated J tag is a FieldArray too)
+        data_cpy[k] = gfapy.FieldArray(v.datatype, deepcopy(v._data))
       elif self._field_datatype(k) == "J":
         data_cpy[k] = json.loads(json.dumps(v))
       elif isinstance(v, list) or isinstance(v, str):
         data_cpy[k] = deepcopy(v)
       elif isinstance(v, gfapy.OrientedLine):
         data_cpy[k] = self.field_to_s(k)
-      elif isinstance(v, gfapy.FieldArray):
-        data_cpy[k] = gfapy.FieldArray(v.datatype, deepcopy(v._data))
       else:
         data_cpy[k] = v
     cpy = self.__class__(data_cpy, vlevel = self.vlevel,
                          virtual = self.virtual, version = self.version)
     cpy._datatype = self._datatype.copy()
+    if hasattr(self, "_positional_fieldnames"):
+      # custom records: the names given to the positional fields on parsing
+      cpy._positional_fieldnames = list(self._positional_fieldnames)
     # cpy._refs and cpy._gfa are not set, so that the cpy is disconnected
     return cpy
